@@ -76,13 +76,16 @@ function runJob (job) {
   if (job.op === 'setup') { shared = job; return { id: job.id, ok: true } }
   job = Object.assign({}, shared, job)
   currentTable = job.table
+  // what the native rewriter is handed for this configuration by a freshly loaded package, no other instance around
+  void new (loadPackage(job.repo).Rewriter)(job.config)
+  const cfgFresh = lastNativeConfig
   const pkg = loadPackage(job.repo)
   const events = []
   // another instance with other options comes first: nothing of it may reach the instance under test
   const decoy = new pkg.Rewriter(Object.assign({}, job.config, { comments: !job.config.comments, telemetryVerbosity: 'OFF', literals: false, localVarPrefix: 'zz', chainSourceMap: false }))
   void decoy
   const rewriter = new pkg.Rewriter(job.config)
-  events.push({ op: 'new', file: '', version: '', threw: false, cfg_same: lastNativeConfig === JSON.stringify(job.config), cfg_got: String(lastNativeConfig).slice(0, 300) })
+  events.push({ op: 'new', file: '', version: '', threw: false, cfg_same: lastNativeConfig === cfgFresh, cfg_got: String(lastNativeConfig).slice(0, 300) })
   const inUse = {}   // file -> text returned by the last successful rewrite
   for (const step of job.steps) {
     const ev = { op: step.op, file: step.file, version: step.version || '', threw: false }
